@@ -354,3 +354,24 @@ __CPROVER_assigns(verif_g_valid, verif_g_dim, verif_g_sat, __CPROVER_object_whol
 ;
 void h_flag_scan0(void) { void *v; int d, s; unsigned long K; w_flag_scan0(v, d, s, K); VERIF_CANARY; }
 #endif
+
+/* ------------------------------------------------------------ SeparationConstraint: constructed as (l, r, g, equality), generated as  l + g <= r  (== if equality) */
+#if defined(JOB_ctor_roundtrip)
+void verif_scene(int dim, double g, int eq); void w_ctor_nodes(int dim, unsigned l, unsigned r, double g, int eq); void w_ctor_alignments(int dim, int swapped, double g, int eq);
+void w_generate(int dim); unsigned long verif_ncs(void); int verif_c_left(void); int verif_c_right(void); double verif_c_gap(void); int verif_c_eq(void);
+void h_ctor_roundtrip(void)
+{
+  int dim, eq, form, swapped; unsigned l, r; double g;
+  __CPROVER_assume((dim == 0 || dim == 1) && (eq == 0 || eq == 1) && (form == 0 || form == 1) && (swapped == 0 || swapped == 1) && l < 4 && r < 4 && l != r);
+  verif_thrown = 0;
+  verif_scene(dim, g, eq);
+  int wantL, wantR;
+  if (form == 0) { w_ctor_nodes(dim, l, r, g, eq); wantL = (int)l; wantR = (int)r; }
+  else { w_ctor_alignments(dim, swapped, g, eq); wantL = swapped ? 5 : 4; wantR = swapped ? 4 : 5; }      /* the guide lines' variables have ids 4 and 5 */
+  w_generate(dim);
+  __CPROVER_assert(!verif_thrown && verif_ncs() == 1, "SPEC one VPSC constraint for the separation");
+  __CPROVER_assert(verif_c_left() == wantL && verif_c_right() == wantR, "SPEC the constraint runs from the user's left operand to the user's right operand");
+  __CPROVER_assert(bits(verif_c_gap()) == bits(g) && verif_c_eq() == eq, "SPEC gap and relation are the user's");
+  VERIF_CANARY;
+}
+#endif
